@@ -492,6 +492,79 @@ def check_varstore(ctx):
     ctx.floor('direct variable-table stores', n, 3)
 
 
+def check_eval_dims(ctx, rule='R-EVALDIMS'):
+    """eval stores each assigned name.  A result that is a file variable carries its own dimension names; one that is a bare array
+    gets the dimension names of the first variable the expression mentions.  Giving the borrowed names to a result that has its own
+    (another set of dimensions, e.g. a surface field next to a 3-d one) stores a variable whose shape disagrees with its dimensions."""
+    from .. import paths as _paths
+    ctx.rule(rule, "eval: the dimension names borrowed from the first referenced variable are given only to results that carry none of their own")
+    fm = ctx.src.mod('core/_files.py')
+    fn = fm.func('PseudoNetCDFFile.eval')
+    where = 'src/PseudoNetCDF/core/_files.py PseudoNetCDFFile.eval'
+    loops = [st for st in iter_stmts(fn.body) if isinstance(st, ast.For) and any(isinstance(c, ast.Call) and (dotted(c.func) or '').endswith('.createVariable') for c in ast.walk(st))]
+    if not loops:
+        ctx.undec(rule, 'store loop', where, 'loop that stores the assigned names not found')
+        return
+    lp = loops[-1]
+    n, bad = 0, None
+    for pth in _paths.enumerate_paths(lp.body, limit=5000):
+        if pth.exit[0] == 'raise':
+            continue
+        cvs = [c for st in pth.stmts for c in walk_expr(st) if isinstance(c, ast.Call) and (dotted(c.func) or '').endswith('.createVariable') and len(c.args) >= 3]
+        for c in cvs:
+            dims = c.args[2]
+            if any(isinstance(x, ast.Attribute) and x.attr == 'dimensions' for x in ast.walk(dims)) and not isinstance(dims, ast.Name):
+                continue            # the result's own dimensions
+            n += 1
+            own = False
+            for a, pol in pth.decisions() if hasattr(pth, 'decisions') else [(x[1], x[2]) for x in pth.items if x[0] == 'cond']:
+                t = norm(a)
+                if ('.dimensions' in t and pol is False and ('!= ()' in t or '!=()' in t)) or ('.dimensions' in t and '== ()' in t and pol is True) or \
+                        ('isinstance(' in t and 'PseudoNetCDFVariable' in t and pol is False) or ("hasattr(" in t and "'dimensions'" in t and pol is False):
+                    own = True
+            if not own:
+                bad = bad or c
+    if bad is not None:
+        ctx.violation(Finding(rule, 'core/_files.py', 'PseudoNetCDFFile.eval', api.stmt_of(bad), 'the result is created with the dimension names %s on a path that has not established that it carries none of its own: '
+                              'a result computed from a variable with other dimensions (PS(time, lat, lon) next to O3(time, lev, lat, lon)) is stored with names that do not match its shape' % norm(bad.args[2])))
+    elif n:
+        ctx.ok(rule, 'store loop', where, '%d paths create the result with borrowed names, all after the test that it has none' % n)
+    else:
+        ctx.undec(rule, 'store loop', where, 'no createVariable with borrowed dimension names')
+
+
+def check_interp_newlen(ctx, rule='R-NEWLEN'):
+    """interpDimension, N-d coordinate branch: the new length of the interpolated dimension is the extent of the new coordinate along
+    the axis of that dimension (shape[axis]), not its first extent (len)."""
+    ctx.rule(rule, 'interpDimension (N-d coordinates): the new dimension length is newdimvals.shape[<axis of the dimension>]')
+    fm = ctx.src.mod('core/_files.py')
+    fn = fm.func('PseudoNetCDFFile.interpDimension')
+    where = 'src/PseudoNetCDF/core/_files.py PseudoNetCDFFile.interpDimension'
+    axdefs = [st for st in iter_stmts(fn.body) if isinstance(st, ast.Assign) and isinstance(st.targets[0], ast.Name) and isinstance(st.value, ast.Call)
+              and isinstance(st.value.func, ast.Attribute) and st.value.func.attr == 'index' and st.value.args and norm(st.value.args[0]) == 'dimkey']
+    if not axdefs:
+        ctx.undec(rule, 'N-d branch', where, 'axis of the interpolated dimension not found')
+        return
+    ax = axdefs[0].targets[0].id
+    par = [a.arg for a in fn.args.args]
+    newv = par[2] if len(par) > 2 else 'newdimvals'
+    # the name that is used as the new length where the dimension key matches
+    cands = [st for st in iter_stmts(fn.body) if isinstance(st, ast.Assign) and isinstance(st.targets[0], ast.Name) and st.lineno > axdefs[0].lineno
+             and any(isinstance(x, ast.Name) and x.id == newv for x in ast.walk(st.value))
+             and (any(isinstance(c, ast.Call) and dotted(c.func) == 'len' for c in ast.walk(st.value)) or any(isinstance(x, ast.Attribute) and x.attr == 'shape' for x in ast.walk(st.value)))]
+    if not cands:
+        ctx.undec(rule, 'N-d branch', where, 'new length not found')
+        return
+    st = cands[0]
+    v = st.value
+    good = isinstance(v, ast.Subscript) and isinstance(v.value, ast.Attribute) and v.value.attr == 'shape' and norm(v.value.value) == newv and norm(v.slice) == ax
+    if good:
+        ctx.ok(rule, 'N-d branch', where, norm(st))
+    else:
+        ctx.violation(Finding(rule, 'core/_files.py', 'PseudoNetCDFFile.interpDimension', st, 'the new length of dimension dimkey is %s, not %s.shape[%s]: when the interpolated dimension is not the first axis of the '
+                              'coordinate the dimension gets the length of another axis (broadcast error, or a silent wrong length when only one level is requested)' % (norm(v), newv, ax)))
+
+
 def run(ctx):
     ctx.rule('R-UNLIM', 'createDimension of a surviving key is paired with a setunlimited derived from the source dimension')
     ctx.rule('R-NCATTR', 'attribute-name list written only by life-cycle methods, in step with the attribute store')
@@ -514,6 +587,8 @@ def run(ctx):
     check_dimkey(ctx)
     # binary operators: the result file's dimensions are a copy of the left operand's, so every result variable must take its
     # dimension tuple from the left operand's variable
+    check_eval_dims(ctx)
+    check_interp_newlen(ctx)
     ctx.rule('R-DIMSRC', 'pncbo: result variables are dimensioned like the variables of the file whose dimensions were copied')
     fu = ctx.src.mod('core/_functions.py')
     pb = fu.func('pncbo')
